@@ -145,6 +145,10 @@ func main() {
 					if fn == nil {
 						fatal(fmt.Errorf("stub %s: function not found", fd.Name.Name))
 					}
+					if prev, dup := stubs[target]; dup {
+						// harness files of two properties in one package: the later file used to win silently
+						fatal(fmt.Errorf("stub target %s has two stubs (%s and %s): register one per package", target, prev.Name(), fn.Name()))
+					}
 					stubs[target] = fn
 				}
 			}
